@@ -25,8 +25,10 @@ parsing happen per message above the framer (`Framing.deliver`) and are paramete
 
 Not modelled (outside the property: streams on which the unsplit run raises): what the
 HTTP *server* and the event channel do after a parse exception (500 + buffer dropped /
-exception swallowed inside the loop — D3b, C05); a data-stream header with `size = 0`
-(D3a, C05) is reported as `err stall`.
+exception swallowed inside the loop — D3b, C05).  A data-stream header whose `size` is smaller
+than the header raises `ProtocolError` (`fix: data stream channel rejects a header whose size is
+smaller than the header`, D3a/C05; the pinned loop, which spun on `size = 0`, is
+`C05.Model.dataStreamPinned`).
 -/
 namespace PyatvModel.C02
 open PyatvModel PyatvModel.Framing
@@ -107,8 +109,8 @@ def dataStream : Framer (Bytes × Bytes) := ⟨fun b =>
   if b.length < dataHeaderLength then .need
   else
     let size := be ((b.drop dataSizeOffset).take dataSizeWidth)
-    if b.length < size then .need
-    else if size = 0 then .err .stall                       -- D3a: nothing consumed, loops
+    if size < dataHeaderLength then .err .malformed         -- repaired D3a: `ProtocolError`
+    else if b.length < size then .need
     else .msg (b.take dataHeaderLength, (b.take size).drop dataHeaderLength) (b.drop size)⟩
 
 /-! ### HTTP / RTSP -/
